@@ -166,8 +166,14 @@ def r3(ctx: Ctx) -> None:
     cas = ctx.fn("storage_backend.S3StorageBackend.write_file_cas")
     g = ctx.cfg(cas)
     puts = ctx.calls(cas, prim="boto.put_object")
-    if not puts:
+    inner_puts = [(nf, n) for nf in ctx.eff._all_lambdas(cas) + list(cas.nested.values())
+                  for n in ctx.cfg(nf).calls() if n.callee and n.callee.name == "boto.put_object"]
+    if not puts and not inner_puts:
         raise AnalysisError("put_object vanished from write_file_cas")
+    for nf, n in inner_puts:
+        ctx.ob("C08.R3", nf, "conditional PUT issued directly (not from a closure handed to a retry helper)", n, False,
+               "the PUT lives in a closure/lambda: a retried conditional PUT after an ambiguous failure could conflict with "
+               "its own first attempt, and its preconditions can no longer be checked per path")
     for p in puts:
         call = p.ast
         assert isinstance(call, ast.Call)
